@@ -552,6 +552,15 @@ class ArrayWorld(object):
                 msg = wf_problem(r)
                 if msg:
                     raise Violation("C05", "wf", "%s returned a malformed array: %s" % (opname, msg))
+            if op.kind == "inplace":
+                # the target of an in-place step must still have one axis of the right length per dimension
+                # (two equal names after a rename through an alias are excused, see 5.1)
+                for t in op.target(step):
+                    o = self.objs.get(t)
+                    if isinstance(o, self.da.DimArray):
+                        msg = wf_problem(o)
+                        if msg and not msg.startswith("duplicate"):
+                            raise Violation("C05", "wf", "after in-place %s (%s) the array is malformed: %s" % (opname, outcome, msg))
         # ---- C16 propagation
         if c16 and op.prop16 and exc is None:
             op.check16(self, step, result, pre16)
